@@ -29,7 +29,7 @@ META = {
              "Edit, Use) with Use in x.funvals | x.parameters | model(x) / model.forward(x) | model.gradient(d, x) and Edit one of 23 in-place "
              "routes on the object (augmented assignment, ufunc out=, setitem, fill, sort, put, copyto, place, putmask, flat, itemset, .real, "
              "setfield) or an edit through a view of its buffer (x.view(), x.view(ndarray), np.asarray(x), x.to_numpy(), the constructor's "
-             "array, x[:]; Samples: s.samples, the constructor's array, a view, rebinding) is replayed on real objects for 7 (thorough: 84) "
+             "array, x[:]; Samples: s.samples, the constructor's array, a view, rebinding) is replayed on real objects for 7 (thorough: 123) "
              "model x geometry configurations incl. StepExpansion, KLExpansion, MappedGeometry, Image2D, user geometries: after every "
              "action the content of the object and the answer must be the spec's exact value for the content the object has at that "
              "moment (X12SeesCurrent, X12UseKeepsContent); 3 more named deviations must violate."),
